@@ -27,6 +27,8 @@
 //       (never on a hit, never popped - every child VM works on its own clone); the CHILD VM's stack is the parent's
 //       stack + the key, i.e. the file is on the import stack while it is being evaluated;
 //   operand popped, result pushed in its place, everything below untouched; on every failure: operand popped only.
+//   (Position of the pushed value, as the code has it: the path operand's position on a hit, the hook's position
+//   after an evaluation. The second cache lookup of the code is dead under R11 and is proved to change nothing.)
 //
 // Genuine defect found with clause (c) on the pinned tree (fixed by /scratch/patches/import_hook.patch; the unit is
 // written against the FIXED text, the pinned behaviour is the seeded mutant `child_stack_without_self`): the child VM
